@@ -1350,7 +1350,7 @@ func genCase(r *core.Rand, tier string, route, lst, tgt string, early, banner in
 	}
 	pause := func() {
 		// idle periods between writes: short ones often, seconds-long ones in thorough
-		if tier == "thorough" && r.Chance(1, 40) {
+		if tier == "thorough" && r.Chance(1, 300) {
 			ops = append(ops, fmt.Sprintf("pause %d", r.Range(1000, 4000)))
 		} else if r.Chance(1, 20) {
 			ops = append(ops, fmt.Sprintf("pause %d", r.Range(5, 120)))
